@@ -14,6 +14,7 @@ SPEC = streamcheck.StreamSpec(
                         p_flatten=0.10, p_copy=0.0),
     n_quick=1200, n_thorough=40000,
     nontrivial=nontrivial,
+    pysem=dict(groups=[], effects=True),
     extra_check=libclause.c11_library,
     rule='random IMPLICITLY sequenced build programs (no explicit relations) with nesting and counts; at every flatten: '
          'leaf multiset (kind, qubits, duration strategy, tag, fields) unchanged, no sub-circuit remains, a second '
